@@ -228,17 +228,25 @@ theorem marshal_unmarshal_roundtrip_partial (w0 w : WFN) (hv : valid w = .ok) (h
 
 /-- The zero name (every attribute unset — more generally any name `Valid`
     answers `ErrUnset` for) marshals to the empty text without error, its
-    `String()` is empty, and unmarshalling the empty text leaves the receiver
-    as it is: a zero name written to a column and read back into a fresh
-    receiver is the zero name again. -/
+    `String()` is empty; `UnmarshalText` of the empty text gives the zero name
+    whatever the receiver held (/repo 498444fa), `Scan` of it leaves the
+    receiver as it is (documented): a zero name written to a column and read
+    back into a fresh receiver is the zero name again either way. -/
 theorem marshal_zero_roundtrip (w0 w : WFN) (hv : valid w = .errUnset) :
-    marshalText w = some [] ∧ wfnString w = [] ∧ (marshalText w).bind (unmarshalText w0) = some w0 :=
-  ⟨(marshalText_unset w hv).1, (marshalText_unset w hv).2, unmarshal_marshal_unset w0 w hv⟩
+    marshalText w = some [] ∧ wfnString w = [] ∧
+      (marshalText w).bind (unmarshalText w0) = some (List.replicate 11 unsetValue) ∧
+      (marshalText w).bind (scanText w0) = some w0 :=
+  ⟨(marshalText_unset w hv).1, (marshalText_unset w hv).2, unmarshal_marshal_unset w0 w hv, scan_marshal_unset w0 w hv⟩
 
 example : valid (List.replicate 11 unsetValue) = .errUnset := by decide
 
-/-- Empty input leaves the receiver alone. -/
-theorem unmarshal_empty (w0 : WFN) : unmarshalText w0 [] = some w0 := rfl
+/-- Empty input: `UnmarshalText` gives the zero name, `Scan` leaves the receiver alone. -/
+theorem unmarshal_empty (w0 : WFN) :
+    unmarshalText w0 [] = some (List.replicate 11 unsetValue) ∧ scanText w0 [] = some w0 := ⟨rfl, rfl⟩
+
+/-- On every other input `Scan` (of a string or of bytes) is `UnmarshalText`. -/
+theorem scan_is_unmarshal_nonempty (w0 : WFN) (b : Str) (h : b ≠ []) : scanText w0 b = unmarshalText w0 b :=
+  scanText_eq_unmarshalText w0 b h
 
 /-- `MarshalText` / `Value` return an error exactly for the names `Valid`
     rejects with an error other than `ErrUnset`; for every other name they
